@@ -364,6 +364,16 @@ Example C14_mini_read_in_goroutine :
                                      Loop [Go [Use "SerialClient.serialPort" R]; Branch [[Return]; [Return]; []]];
                                      Return] |} ]) = false.
 Proof. vm_compute. reflexivity. Qed.
+(* the lock is released by explicit Unlocks on every return path instead of a deferred one: a panic
+   in between (a user hook, req.Bytes(), a parse function; recovered by the caller) leaves the mutex
+   locked for ever *)
+Example C14_mini_unlock_not_deferred :
+  well_locked (mini [ {| fn_name := "Client.Do"; fn_kind := KFunc; fn_exported := true;
+                         fn_body := [Lock "Client.mu"; Use "Client.conn" R;
+                                     Branch [[Unlock "Client.mu"; Return]; []];
+                                     Call "Client.do"; Use "Client.hooks" R; Unlock "Client.mu"; Return] |};
+                      mini_do ]) = false.
+Proof. vm_compute. reflexivity. Qed.
 (* an unrecognised construct fails the obligation *)
 Example C14_mini_unknown :
   well_locked (mini [ {| fn_name := "f"; fn_kind := KFunc; fn_exported := true;
